@@ -191,6 +191,17 @@ class VExc(V):
         return f"VExc({self.cls})"
 
 
+class VDict(V):
+    """A dictionary literal with constant keys (module-level dispatch tables): list of (python key, value)."""
+    __slots__ = ("items",)
+
+    def __init__(self, items):
+        self.items = items
+
+    def __repr__(self):
+        return f"VDict({[k for k, _ in self.items]})"
+
+
 class VOpaque(V):
     """A value the engine does not interpret (e.g. a compiled regex, a TracebackType)."""
     __slots__ = ("what",)
